@@ -5,6 +5,50 @@ From Coq Require Import Permutation Reals Lra Psatz.
 From VF Require Import Base.Prelude Model.Valid.
 Open Scope Z_scope.
 
+(* the names a skip-duplicates loop files: first occurrences, in order *)
+Fixpoint dedup (seen names : list Z) : list Z :=
+  match names with
+  | [] => []
+  | n :: ns => if memZ n seen then dedup seen ns else n :: dedup (n :: seen) ns
+  end.
+
+Lemma memZ_In n l : memZ n l = true <-> In n l.
+Proof.
+  unfold memZ. rewrite existsb_exists. split.
+  - intros (x & I & E). apply Z.eqb_eq in E. subst. exact I.
+  - intros I. exists n. split; [exact I|apply Z.eqb_refl].
+Qed.
+
+Lemma dedup_spec names : forall seen,
+  NoDup (dedup seen names) /\ (forall n, In n (dedup seen names) <-> In n names /\ ~ In n seen).
+Proof.
+  induction names as [|m ms IH]; intros seen; cbn.
+  - split; [constructor|]. intros n. split; [intros []|intros [[] _]].
+  - destruct (memZ m seen) eqn:E.
+    + apply memZ_In in E. destruct (IH seen) as (ND & I). split; [exact ND|].
+      intros n. rewrite I. split; [intros [A B]; auto|].
+      intros [[->|A] B]; [contradiction|auto].
+    + assert (Hm : ~ In m seen) by (intros C; apply memZ_In in C; congruence).
+      destruct (IH (m :: seen)) as (ND & I). split.
+      * constructor; [|exact ND]. intros C. apply I in C. destruct C as [_ C]. apply C. left. reflexivity.
+      * intros n. cbn. rewrite I. cbn. split.
+        -- intros [->|[A B]]; [auto|]. split; [auto|]. intros C. apply B. right. exact C.
+        -- intros [[->|A] B]; [left; reflexivity|].
+           destruct (Z.eq_dec m n) as [->|Hne]; [left; reflexivity|].
+           right. split; [exact A|]. intros [C|C]; [contradiction|contradiction].
+Qed.
+
+Lemma dedup_nodup names : forall seen,
+  NoDup names -> (forall n, In n names -> ~ In n seen) -> dedup seen names = names.
+Proof.
+  induction names as [|m ms IH]; intros seen ND H; cbn; [reflexivity|].
+  inversion ND as [|? ? Hm ND']; subst.
+  destruct (memZ m seen) eqn:E.
+  - apply memZ_In in E. exfalso. exact (H m (or_introl eq_refl) E).
+  - f_equal. apply IH; [exact ND'|]. intros n I [C|C]; [subst; contradiction|].
+    exact (H n (or_intror I) C).
+Qed.
+
 Section P.
   Variable V : Type.
   Notation results := (list (Z * V)).
@@ -61,18 +105,28 @@ Section P.
       apply S in E1. eapply Permutation_in; [apply Permutation_sym; exact P|right; exact E1].
   Qed.
 
+  Lemma pop_all_skip_eq names : forall (r : results) seen,
+    pop_all_skip r names seen = pop_all r (dedup seen names).
+  Proof.
+    induction names as [|n ns IH]; intros r seen; cbn; [reflexivity|].
+    destruct (memZ n seen); [apply IH|]. cbn.
+    destruct (pop r n) as [[v r1]|]; cbn [bind fst snd]; [|reflexivity].
+    rewrite IH. reflexivity.
+  Qed.
+
   (* every compared name ends up in exactly one group, with its own value:
      the four groups are a permutation of the result dict, and the first three
      list exactly the input / output / constant names *)
   Theorem partition_exact (r : results) ins outs consts g :
     partition r ins outs consts = Ok g ->
     Permutation r (g_inputs g ++ g_outputs g ++ g_constants g ++ g_intermediates g) /\
-    map fst (g_inputs g) = ins /\ map fst (g_outputs g) = outs /\
+    map fst (g_inputs g) = ins /\ map fst (g_outputs g) = dedup [] outs /\
     map fst (g_constants g) = consts.
   Proof.
     unfold partition. intros H.
     destruct (pop_all r ins) as [[a r1]|] eqn:E1; cbn [bind fst snd] in H; [|discriminate].
-    destruct (pop_all r1 outs) as [[b r2]|] eqn:E2; cbn [bind fst snd] in H; [|discriminate].
+    rewrite pop_all_skip_eq in H.
+    destruct (pop_all r1 (dedup [] outs)) as [[b r2]|] eqn:E2; cbn [bind fst snd] in H; [|discriminate].
     destruct (pop_all r2 consts) as [[c r3]|] eqn:E3; cbn [bind fst snd] in H; [|discriminate].
     inversion H; subst; clear H. cbn.
     destruct (pop_all_spec _ _ _ _ E1) as (P1 & M1 & _).
